@@ -193,6 +193,21 @@ def tissues(rng, tier):
     # straight interfaces with an even number of evenly spaced, exactly collinear points (D23: the circle fit used to stall on the line)
     yield gen.lattice_tissue(3, 3, "square", npts=2, w=30.0, h=10.0), "exact-rect-4pts"
     yield gen.lattice_tissue(3, 4, "brick", npts=int(rng.choice([2, 4, 6])), w=float(rng.integers(8, 40)), h=float(rng.integers(4, 20))), "exact-brick-even-pts"
+    # curved interfaces whose first segment at a junction is exactly axis-parallel (a component of the segment is 0.0)
+    def curved(npts_lo, npts_hi):
+        for _ in range(20):
+            t = gen.voronoi_tissue(rng, n=int(rng.integers(30, 50)), npts=int(rng.integers(npts_lo, npts_hi)), mob_strength=float(rng.uniform(0.8, 1.5)))
+            if len(t["cells"]) >= 8 and max((iface_theta(it) for it in t["ifaces"] if len(it.get("cells", [])) == 2), default=0.0) >= 0.1:
+                return t
+        return t
+    for j in range(2 if tier == "quick" else 12):
+        al, who = gen.align_first_segment(curved(1, 4), rng)
+        if who is not None:
+            yield al, f"aligned-first-segment{j}"
+    # the same tissue in very small and very large length units
+    base = curved(2, 6)
+    for sc in (1e-6, 1e6):
+        yield gen.similarity(base, sc, float(rng.uniform(0, 6.28)), False, 0.0, 0.0), f"unit-scale{sc:g}"
     n = 8 if tier == "quick" else 150
     for k in range(n):
         kind = k % 6
